@@ -33,6 +33,7 @@ struct World {
     suuid: Vec<Uuid>,
     now: u64, // simulated seconds offset from T0
     last_skew: bool,
+    dbdir: Option<String>, // file-backed replicas live here (restartable)
     tscale: u64, // seconds per model time unit for explicit-time ops (10 by default)
     cred: kanidmd_lib::credential::Credential,
 }
@@ -46,14 +47,23 @@ fn ses_uuid2(e: u64, sid: u64) -> Uuid {
 }
 
 impl World {
-    async fn new(n: usize) -> World {
+    async fn new(n: usize, dbdir: Option<String>) -> World {
         let mut qs = Vec::new();
-        for _ in 0..n {
-            qs.push(new_qs(t(0)).await);
+        for i in 0..n {
+            match &dbdir {
+                // file-backed replicas can be restarted ({"op":"restart","r":"A"})
+                Some(d) => {
+                    let _ = std::fs::create_dir_all(d);
+                    let p = format!("{d}/{}.db", NAMES[i]);
+                    let _ = std::fs::remove_file(&p);
+                    qs.push(open_qs_file(std::path::Path::new(&p), 1, t(0), true).await);
+                }
+                None => qs.push(new_qs(t(0)).await),
+            }
         }
         let p = CryptoPolicy::minimum();
         let cred = kanidmd_lib::credential::Credential::new_password_only(&p, "verif_password", OffsetDateTime::UNIX_EPOCH + t(0)).expect("cred");
-        let mut w = World { qs, suuid: vec![], now: 1, last_skew: false, tscale: 10, cred };
+        let mut w = World { qs, suuid: vec![], now: 1, last_skew: false, tscale: 10, dbdir, cred };
         // all other replicas are refreshed from A so that they share the domain
         for i in 1..n {
             let r = w.refresh(0, i).await;
@@ -315,6 +325,22 @@ async fn step(w: &mut World, op: &J) -> J {
         }
         "delete" => json!(w.local(r.expect("r"), move |wr| wr.internal_delete_uuid(uuid_e(e))).await),
         "revive" => json!(w.local(r.expect("r"), move |wr| revive_uuid(wr, uuid_e(e))).await),
+        "restart" => {
+            // drop the server object (closes its connections) and reopen the same database file, as a
+            // restarted kanidmd does (Backend::new -> ruv rebuild, QueryServer::new, initialise_helper)
+            let i = r.expect("r");
+            match w.dbdir.clone() {
+                None => json!("err:not-file-backed"),
+                Some(d) => {
+                    let p = format!("{d}/{}.db", NAMES[i]);
+                    let dummy = new_qs(t(0)).await;
+                    let old = std::mem::replace(&mut w.qs[i], dummy);
+                    drop(old);
+                    w.qs[i] = open_qs_file(std::path::Path::new(&p), 1, t(w.now), true).await;
+                    json!("ok")
+                }
+            }
+        }
         "trim" => json!(w.local(r.expect("r"), |wr| wr.purge_tombstones().map(|_| ())).await),
         "purge" => {
             // model purge of one recycled entry: jump past the retention period unless the behaviour's own
@@ -458,7 +484,12 @@ pub fn run(o: &Opts) -> i32 {
             let opname = op["op"].as_str().unwrap_or("");
             if opname == "init" {
                 let n = op["n"].as_u64().unwrap_or(2) as usize;
-                let mut nw = World::new(n).await;
+                let dbdir = if op["file"].as_bool().unwrap_or(false) {
+                    Some(format!("{}.db.d", out))
+                } else {
+                    None
+                };
+                let mut nw = World::new(n, dbdir).await;
                 nw.tscale = op["tscale"].as_u64().unwrap_or(10);
                 let st = nw.proj().await;
                 w = Some(nw);
